@@ -51,28 +51,50 @@ Definition runA (k : keys3) (gpmd gpdl : Q) (dp dd dw : list (Z * Q)) (profs : l
       end
   end.
 
-(* loader level: equipment entry + element config -> Roadm ; design step (per-degree targets) ; crossings on the
-   designed element (its internal paths and reference input powers are those observed on the implementation) *)
+(* loader level: equipment entry + element config -> Roadm ; design step: per-degree targets, reference input
+   powers + target_to_be_supported, internal paths ; crossings on the designed element.  Inputs are the
+   configuration and the topology around the ROADM (degree lists, what feeds each ingress degree); the header
+   segment renders everything the design computed:
+     D:<dpow>|<dpsd>|<dpsw>|<node policy>|<set_roadm_paths calls>|<ref_pch_in_dbm>|<target_to_be_supported>|<warned ingress degrees> *)
+Definition pd3 (from to id : Z) : pdi := mkPdi from to id.
+Definition ftrx (k : Z) (loss : Q) : Z * feed := (k, FTrx loss).
+Definition fedfa (k : Z) (dp voa loss : Q) : Z * feed := (k, FEdfa dp voa loss).
+Definition froadm (k : Z) (pl : policy) (loss : Q) : Z * feed := (k, FRoadm pl loss).
+Definition ptype_s (t : ptype) : string := match t with Express => "x" | Add => "a" | Drop => "d" end.
+Definition call_s (c : pcall) : string :=
+  join ":" [zs (c_from c); zs (c_to c); ptype_s (c_pt c); ozs (c_id c)].
+
 Definition runL (eq el : keys3) (gpmd gpdl : Q) (dp dd dw : list (Z * Q)) (next : list Z) (profs : list profile)
-                (calls : list pcall) (rcar : option (Q * Q)) (rin : list (Z * Q))
+                (pdis : list pdi) (prev drops adds : list Z) (pref b w : Q) (feeds : list (Z * feed))
                 (xs : list (Z * Z * list chan)) : string :=
   match load_policy eq el with
   | Err e => append "R:" e
-  | Ok (a, b, c) =>
-      match set_targets (mkRoadm a b c dp dd dw rcar rin []) next with
+  | Ok (a, b0, c) =>
+      match set_targets (mkRoadm a b0 c dp dd dw (Some (b, w)) [] []) next with
       | Err e => append "R:" e
       | Ok r1 =>
-          match set_paths (global_band gpmd gpdl) (prof_dict profs) calls [] with
+          match supported r1 b w with
           | Err e => append "R:" e
-          | Ok ps =>
-              let r := mkRoadm (npow r1) (npsd r1) (npsw r1) (dpow r1) (dpsd r1) (dpsw r1) rcar rin ps in
-              join ";" (join "|" [append "D:" (dict_s (dpow r)); dict_s (dpsd r); dict_s (dpsw r);
-                                  match node_policy r with
-                                  | Some (Power t) => append "pow=" (q_s t)
-                                  | Some (Psd d) => append "psd=" (q_s d)
-                                  | Some (Psw d) => append "psw=" (q_s d)
-                                  | None => "none"%string
-                                  end] :: map (cross_s r) xs)
+          | Ok m =>
+              match internal_paths (prof_dict profs) pdis prev next drops adds with
+              | Err e => append "R:" e
+              | Ok calls =>
+                  match set_paths (global_band gpmd gpdl) (prof_dict profs) calls [] with
+                  | Err e => append "R:" e
+                  | Ok ps =>
+                      let rin := input_powers pref b w feeds in
+                      let r := mkRoadm (npow r1) (npsd r1) (npsw r1) (dpow r1) (dpsd r1) (dpsw r1) (Some (b, w)) rin ps in
+                      join ";" (join "|" [append "D:" (dict_s (dpow r)); dict_s (dpsd r); dict_s (dpsw r);
+                                          match node_policy r with
+                                          | Some (Power t) => append "pow=" (q_s t)
+                                          | Some (Psd d) => append "psd=" (q_s d)
+                                          | Some (Psw d) => append "psw=" (q_s d)
+                                          | None => "none"%string
+                                          end;
+                                          join "," (map call_s calls); dict_s rin; q_s m; zlist_s (warned m rin)]
+                                :: map (cross_s r) xs)
+                  end
+              end
           end
       end
   end.
